@@ -35,6 +35,28 @@ EXT_NON_EST = {
     "TransformerMixin", "MetaEstimatorMixin", "UserWarning", "Warning", "TypeError",
     "NamedTuple", "dict", "list", "Layer", "Callback",
 }
+# apply-type methods that the scikit-learn roots define themselves (their guard is sklearn's own
+# check_is_fitted -> sklearn NotFittedError; reported as GX = outside the sktime source)
+EXT_METHODS = {
+    "ForestClassifier": {"predict", "predict_proba", "score"},
+    "ForestRegressor": {"predict", "score"},
+    "BaseForest": set(), "BaseEnsemble": set(), "BaseEstimator": set(),
+    "KNeighborsClassifier": {"predict", "predict_proba", "score"},
+    "DecisionTreeClassifier": {"predict", "predict_proba", "score"},
+    "ClassifierMixin": {"score"}, "RegressorMixin": {"score"},
+    "ColumnTransformer": {"transform"}, "FeatureUnion": {"transform"},
+    "Pipeline": {"predict", "predict_proba", "transform", "inverse_transform", "score"},
+}
+# does the scikit-learn root define __init__ (so that a super().__init__ call can reach it)?
+EXT_HAS_INIT = {"ForestClassifier", "ForestRegressor", "BaseForest", "BaseEnsemble",
+                "KNeighborsClassifier", "DecisionTreeClassifier", "ColumnTransformer",
+                "FeatureUnion", "Pipeline"}
+# positional parameter names of scikit-learn constructors reached positionally from sktime (the
+# scikit-learn release sktime 0.6.0 pins; scikit-learn stores them verbatim under these names)
+EXT_POSITIONAL = {"BaseForest": ["base_estimator", "n_estimators"],
+                  "BaseEnsemble": ["base_estimator", "n_estimators"],
+                  "FeatureUnion": ["transformer_list"], "ColumnTransformer": ["transformers"],
+                  "Pipeline": ["steps"]}
 BUILTINS = {"object", "Exception", "ValueError", "AttributeError", "RuntimeWarning", "UserWarning",
             "Warning", "TypeError", "dict", "list"}
 
@@ -214,6 +236,9 @@ class Table:
                 allc[(m.name, cname)] = {"module": m.name, "name": cname, "node": node,
                                          "bases": bases, "path": m.path}
         self.allc = allc
+        for root in EXT_EST_ROOTS:
+            if root not in EXT_METHODS:
+                raise Unsupported("no method table for external root " + root)
         est = set()
         changed = True
         while changed:
@@ -277,17 +302,15 @@ class Table:
             chain = chain[chain.index(after) + 1:]
         for c in chain:
             if self._is_ext(c):
-                if c[2] in EXT_NON_EST and c[2] not in ("TransformerMixin",):
+                if c[2] in EXT_NON_EST:
                     continue
-                if c[2] in ("ClassifierMixin", "RegressorMixin"):
-                    if name == "score":
+                if name == "__init__":
+                    if c[2] in EXT_HAS_INIT:
                         return ("ext", c)
                     continue
-                if c[2] == "TransformerMixin":
-                    continue
-                if c[2] == "BaseEstimator":
-                    continue     # sklearn BaseEstimator defines no apply-type method and no __init__
-                return ("ext", c)
+                if name in EXT_METHODS[c[2]]:
+                    return ("ext", c)
+                continue
             for s in self.allc[c]["node"].body:
                 if isinstance(s, (ast.FunctionDef, ast.AsyncFunctionDef)) and s.name == name:
                     return (c, s)
@@ -421,19 +444,11 @@ class Table:
             m = self.mods[k[0]]
             r0 = self.resolve_base(m, v)
             if r0[0] == "cls":
-                chain = self.mro(r0[1:])
-                r = None
-                for c in chain:
-                    if self._is_ext(c):
-                        if c[2] in EXT_EST_ROOTS and c[2] not in ("BaseEstimator", "ClassifierMixin", "RegressorMixin"):
-                            r = ("ext", c)
-                            break
-                        continue
-                    if any(isinstance(s, ast.FunctionDef) and s.name == "__init__" for s in self.allc[c]["node"].body):
-                        r = (c, None)
-                        break
+                own = [x for x in self.allc[r0[1:]]["node"].body
+                       if isinstance(x, ast.FunctionDef) and x.name == "__init__"]
+                r = (r0[1:], own[0]) if own else self.find_method(r0[1:], "__init__", after=r0[1:])
             else:
-                r = ("ext", r0)
+                r = ("ext", r0) if r0[2] in EXT_HAS_INIT else None
             args = list(call.args)[1:]     # explicit self
         if r is None:
             return ("none",), args
@@ -442,6 +457,9 @@ class Table:
         return ("cls",) + r[0], args
 
     def _positional_name(self, target, i):
+        if target[0] == "ext":
+            names = EXT_POSITIONAL.get(target[2], [])
+            return names[i] if i < len(names) else ""
         if target[0] != "cls":
             return ""
         for s in self.allc[target[1:]]["node"].body:
@@ -653,7 +671,9 @@ class _GuardAnalysis:
                     if self.touch is None:
                         self.touch = "%s via %s" % (st[2], f.attr)
                     return g
-                # GA / GX / GR: the callee neither guards nor touches state: state unchanged
+                if st[0] == "GA":
+                    return BOTTOM          # abstract callee raises NotImplementedError
+                # GX / GR: the callee neither guards nor touches sktime state: state unchanged
                 return g
             return g
         if isinstance(e, ast.Attribute):
